@@ -162,6 +162,9 @@ def Pat.wf (p : Pat) : Bool := p.wf0 && p.prefixFree
 def Pat.WF0 (p : Pat) : Prop := p.wf0 = true
 def Pat.WF (p : Pat) : Prop := p.wf = true
 
+instance (p : Pat) : Decidable p.WF0 := by unfold Pat.WF0; infer_instance
+instance (p : Pat) : Decidable p.WF := by unfold Pat.WF; infer_instance
+
 /-- no NUL inside (addresses and type strings are C strings) -/
 def NulFree (b : Bytes) : Prop := ∀ c ∈ b, c ≠ 0
 
@@ -169,6 +172,14 @@ def NulFree (b : Bytes) : Prop := ∀ c ∈ b, c ≠ 0
     (in particular: every index of up to 9 digits, with any number of leading zeros) -/
 def IdxBounded (a : Bytes) : Prop :=
   ∀ pre run post, a = pre ++ run ++ post → (∀ c ∈ run, isDigit c = true) → decVal run < 2 ^ 31
+
+/-- decidable form of `IdxBounded` (all sub-strings; `idxBounded_of_check` in
+    Proofs/MatchLemmas.lean) -/
+def idxBoundedCheck (a : Bytes) : Bool :=
+  (List.range (a.length + 1)).all fun i =>
+    (List.range (a.length + 1)).all fun j =>
+      let run := (a.drop i).take j
+      !(run.all isDigit) || decide (decVal run < 2 ^ 31)
 
 /-- the buffer behind the type string is long enough for every type alternative to be
     compared without leaving it (`rtosc_match_args` advances `arg_str` once per pattern
